@@ -14,8 +14,9 @@
    Part 3: the three round trips (C10_type_twice_text, C10_wrap_unwrap_text, C09_extract_inline_text /
    _changes; the _blocks variants hold without [settled]), non-vacuity examples, and for every failure
    class of Props/C10.v / Check_C10.v the hypothesis that excludes it:
-     adjacent lists (3), heading deeper than 6 (4), tight item with a rule / two quotes (5):
-         reparse_safe of the note and of the intermediate text;
+     adjacent lists (3), heading deeper than 6 (4): reparse_safe of the note and of the intermediate text;
+     tight item with a rule / two quotes (former class 5): no longer a failure since the writer writes such
+         a list sparse (F-TIGHTTAIL repaired): C10_wrap_unwrap_text_tight_rule_quotes_holds;
      section after a sibling section (6), extract of a later sub-section:  forallb nonsec l1
          (C10_wrap_unwrap_text_after_section_refuted, C09_extract_inline_text_not_first_refuted). *)
 From IweV Require Import Str Text Ast RelPath Arena Project SectionsSpec Check_Norm NormFacts BuilderFacts
@@ -1385,14 +1386,34 @@ Theorem C10_wrap_unwrap_text_after_section_refuted :
   tree_to_markdown xo [] "d" t = "# a" +++ LFS +++ LFS +++ "# b" +++ LFS.
 Proof. cbv zeta. repeat split; try (vm_compute; reflexivity). repeat constructor. Qed.
 
-(* next to a bullet list (class 3) and a section holding only a rule (class 5: a tight item with a rule is a
-   setext heading): the hypothesis on the intermediate text is false *)
-Example C10_wrap_unwrap_text_adjacent_tight_excluded :
+(* next to a bullet list (class 3): the hypothesis on the intermediate text is false *)
+Example C10_wrap_unwrap_text_adjacent_excluded :
   let t3 := T (Some 0) (NDocument xkey) [sec 1 "s" [T (Some 2) NBList [sec 3 "x" []]; sec 4 "b" []]] in
-  let t5 := T (Some 0) (NDocument xkey) [sec 1 "s" [sec 4 "b" [T (Some 5) NRule []]]] in
-  reparse_safe xo (project "d" t3) = true /\ reparse_safe xo (project "d" (wrap_into_list 4 t3)) = false /\
-  reparse_safe xo (project "d" t5) = true /\ reparse_safe xo (project "d" (wrap_into_list 4 t5)) = false.
-Proof. cbv zeta. repeat split; vm_compute; reflexivity. Qed.
+  reparse_safe xo (project "d" t3) = true /\ reparse_safe xo (project "d" (wrap_into_list 4 t3)) = false.
+Proof. cbv zeta. split; vm_compute; reflexivity. Qed.
+
+(* a section holding a rule right under its heading and two quotes in a row (the former class 5: in a tight
+   item the rule was a setext underline, the quotes one quote).  Since the repair of F-TIGHTTAIL the writer
+   writes such an item sparse (Project.is_sparse, ReparseFacts.tight_list_calm), the intermediate text is in
+   the class and the round trip HOLDS *)
+Definition xc_x : tree :=
+  sec 4 "b" [T (Some 5) NRule []; T (Some 6) NQuote [leaf 7 "q1"]; T (Some 8) NQuote [leaf 9 "q2"]].
+Definition xc_F : frame := F (Some 1) (NSection [Str "s"]) [] [].
+Definition xc_C : list frame := [F (Some 0) (NDocument xkey) [] []].
+Definition xc : tree := plug (xc_F :: xc_C) xc_x.
+
+Example C10_wrap_unwrap_text_tight_rule_quotes_holds :
+  reparse_safe xo (project "d" (wrap_into_list 4 xc)) = true /\
+  tree_to_markdown xo [] "d" (wrap_into_list 4 xc) <> tree_to_markdown xo [] "d" xc /\
+  tree_to_markdown xo [] "d" (unwrap_list (100 + pre_off (xc_F :: xc_C)) (reparsed xctx xo xkey 100 (wrap_into_list 4 xc)))
+  = tree_to_markdown xo [] "d" xc.
+Proof.
+  assert (H5 : reparse_safe xo (project "d" (wrap_into_list 4 xc)) = true) by (vm_compute; reflexivity).
+  refine (conj H5 (conj _ _)).
+  - vm_compute. discriminate.
+  - apply (C10_wrap_unwrap_text xctx xo [] xkey 100 4 xc_C (Some 1) (NSection [Str "s"]) [] [] (Some 4));
+      try (vm_compute; reflexivity); auto. repeat constructor.
+Qed.
 
 (* heading depth (class 4): a note in the class has no heading deeper than 6, and the item written for the
    section restarts at level 1; a level-7 heading is outside [reparse_safe] (ReparseFacts.reparse_depth7_refuted) *)
